@@ -133,7 +133,11 @@ class BinnerOp(FunctionContract):
             return [(c, m) for c in base for m in range(0, len(c) + 1)]
         if op in ("concatenate_bins", "combine_bins"):
             small = [c for c in base if len(c) <= 2] + [(0, 1, 2)]
+            if op == "combine_bins":
+                small = [c for c in small if len(c) >= 1]
             return [(c, d) for c in small for d in small]
+        if op in ("add_item_to_bin", "numitems"):
+            base = [c for c in base if len(c) >= 1]          # these take a bin index: there is none in an array without bins
         return [(c, None) for c in base]
 
     def shape_text(self, shape):
